@@ -8,17 +8,9 @@ package verifsys
 // the TLS API, so it has to stay as configured in the file).
 
 import (
-	"crypto/ecdsa"
-	"crypto/elliptic"
-	crand "crypto/rand"
 	"crypto/tls"
-	"crypto/x509"
-	"crypto/x509/pkix"
-	"encoding/base64"
 	"encoding/json"
-	"encoding/pem"
 	"fmt"
-	"math/big"
 	"math/rand"
 	"os"
 	"path/filepath"
@@ -55,45 +47,6 @@ func c16SysCovers(sans []string, name string) bool {
 	}
 
 	return false
-}
-
-// c16SysCert makes a self-signed certificate for the names.
-func c16SysCert(names []string) (certPEM, keyPEM string, err error) {
-	key, err := ecdsa.GenerateKey(elliptic.P256(), crand.Reader)
-	if err != nil {
-		return "", "", err
-	}
-	tmpl := &x509.Certificate{
-		SerialNumber:          big.NewInt(time.Now().UnixNano()),
-		Subject:               pkix.Name{CommonName: c16SysName, Organization: []string{"verif"}},
-		NotBefore:             time.Now().Add(-time.Hour),
-		NotAfter:              time.Now().Add(30 * 24 * time.Hour),
-		KeyUsage:              x509.KeyUsageDigitalSignature | x509.KeyUsageCertSign,
-		ExtKeyUsage:           []x509.ExtKeyUsage{x509.ExtKeyUsageServerAuth},
-		BasicConstraintsValid: true,
-		IsCA:                  true,
-		DNSNames:              names,
-	}
-	der, err := x509.CreateCertificate(crand.Reader, tmpl, tmpl, &key.PublicKey, key)
-	if err != nil {
-		return "", "", err
-	}
-	kder, err := x509.MarshalPKCS8PrivateKey(key)
-	if err != nil {
-		return "", "", err
-	}
-
-	return string(pem.EncodeToMemory(&pem.Block{Type: "CERTIFICATE", Bytes: der})),
-		string(pem.EncodeToMemory(&pem.Block{Type: "PRIVATE KEY", Bytes: kder})), nil
-}
-
-func c16SysIndent(s, pad string) string {
-	var sb strings.Builder
-	for _, l := range strings.Split(strings.TrimRight(s, "\n"), "\n") {
-		sb.WriteString(pad + l + "\n")
-	}
-
-	return sb.String()
 }
 
 // ---------------------------------------------------------------------------
@@ -470,36 +423,6 @@ func (r *c16SysRun) sweep(stage string) (ok bool) {
 	return true
 }
 
-// tlsBody fetches the TLS status and turns it into a body for
-// /control/tls/configure and /control/tls/validate, the way the UI re-submits
-// the form.  withKey puts the private key in, otherwise private_key_saved.
-func (r *c16SysRun) tlsBody(keyPEM string, withKey bool) (body map[string]any, err error) {
-	st, b, err := r.in.API("GET", "/control/tls/status", nil)
-	if err != nil || st != 200 {
-		return nil, fmt.Errorf("tls/status: status %d err %v", st, err)
-	}
-	var status map[string]any
-	if err = json.Unmarshal(b, &status); err != nil {
-		return nil, err
-	}
-	body = map[string]any{}
-	for _, k := range []string{"enabled", "server_name", "force_https", "port_https", "port_dns_over_tls", "port_dns_over_quic",
-		"certificate_chain", "certificate_path", "private_key_path", "serve_plain_dns"} {
-		if v, ok := status[k]; ok {
-			body[k] = v
-		}
-	}
-	if withKey {
-		body["private_key"] = base64.StdEncoding.EncodeToString([]byte(keyPEM))
-		body["private_key_saved"] = false
-	} else {
-		body["private_key"] = ""
-		body["private_key_saved"] = true
-	}
-
-	return body, nil
-}
-
 // step performs one admin-API step; accepted tells whether the server took it.
 func (r *c16SysRun) step(name, path string, body map[string]any) (accepted bool) {
 	st, resp, err := r.in.APITimeout("POST", path, body, 30*time.Second)
@@ -520,7 +443,7 @@ func c16SysConfig(rep *verifkit.Report, rng *rand.Rand, up *sysUpstream, strict 
 	if certKind == "wide" {
 		r.sans = c16SysWideSANs
 	}
-	certPEM, keyPEM, cerr := c16SysCert(r.sans)
+	certPEM, keyPEM, cerr := sysTLSCert(c16SysName, r.sans)
 	if cerr != nil {
 		rep.Inconcl("certificate: " + cerr.Error())
 
@@ -542,9 +465,7 @@ func c16SysConfig(rep *verifkit.Report, rng *rand.Rand, up *sysUpstream, strict 
 	var err error
 	for try := 0; ; try++ {
 		r.dotPort = verifkit.FreePort()
-		tlsYAML := fmt.Sprintf("  enabled: true\n  server_name: %s\n  force_https: false\n  port_https: 0\n  port_dns_over_tls: %d\n  port_dns_over_quic: 0\n"+
-			"  certificate_chain: |\n%s  private_key: |\n%s  strict_sni_check: %v\n",
-			c16SysName, r.dotPort, c16SysIndent(certPEM, "    "), c16SysIndent(keyPEM, "    "), strict)
+		tlsYAML := sysTLSYAML(c16SysName, r.dotPort, certPEM, keyPEM) + fmt.Sprintf("  strict_sni_check: %v\n", strict)
 		r.in, err = sysStart("", sysConfOpts{UpstreamPort: up.Port, QLogMemSize: 5000, TLS: tlsYAML})
 		if err != nil {
 			rep.Inconcl("start: " + err.Error())
@@ -578,7 +499,7 @@ func c16SysConfig(rep *verifkit.Report, rng *rand.Rand, up *sysUpstream, strict 
 	rounds := verifkit.Pick(1, 3)
 	for round := 0; round < rounds; round++ {
 		for _, withKey := range []bool{false, true} {
-			body, berr := r.tlsBody(keyPEM, withKey)
+			body, berr := sysTLSResubmitBody(r.in, keyPEM, withKey)
 			if berr != nil {
 				rep.Inconcl(berr.Error())
 
@@ -592,14 +513,14 @@ func c16SysConfig(rep *verifkit.Report, rng *rand.Rand, up *sysUpstream, strict 
 	}
 
 	// Validation only.
-	if body, berr := r.tlsBody(keyPEM, true); berr == nil {
+	if body, berr := sysTLSResubmitBody(r.in, keyPEM, true); berr == nil {
 		if r.step("same settings", "/control/tls/validate", body) && !r.sweep("after-tls-validate") {
 			return
 		}
 	}
 
 	// Another server name and back.
-	if body, berr := r.tlsBody(keyPEM, false); berr == nil {
+	if body, berr := sysTLSResubmitBody(r.in, keyPEM, false); berr == nil {
 		body["server_name"] = "renamed.verif.test"
 		if r.step("server_name renamed.verif.test", "/control/tls/configure", body) {
 			body["server_name"] = c16SysName
